@@ -21,7 +21,7 @@ Now with HDF5 write / read capability for VacancyMediated module
 __author__ = 'Dallas R. Trinkle'
 
 import numpy as np
-from scipy.linalg import pinv, solve
+from scipy.linalg import pinv, solve, lstsq
 import copy, collections, itertools, warnings, yaml
 from functools import reduce
 from onsager import GFcalc
@@ -91,8 +91,9 @@ class Interstitial(object):
             # invertible, so just use solve for speed (omega is technically *negative* definite)
             self.bias_solver = lambda omega, b: -solve(-omega, b, assume_a='pos')
         else:
-            # pseudoinverse required:
-            self.bias_solver = lambda omega, b: np.dot(pinv(omega), b)
+            # pseudoinverse required; applied as a minimum-norm least-squares solve rather than by forming
+            # pinv(omega) explicitly, which loses (fastest rate)/(slowest rate) digits in the product
+            self.bias_solver = lambda omega, b: lstsq(omega, b, cond=max(omega.shape) * np.finfo(float).eps)[0]
         # these pieces are needed in order to compute the elastodiffusion tensor
         self.sitegroupops = self.generateSiteGroupOps()  # list of group ops to take first rep. into whole list
         self.jumpgroupops = self.generateJumpGroupOps()  # list of group ops to take first rep. into whole list
